@@ -8,6 +8,7 @@ products nested to any depth), every length / shape and every element.
 -/
 import OdlModel.Lemmas.WeightingNorms
 import OdlModel.Lemmas.WeightingCustom
+import OdlModel.Gen.WeightingDispatch
 import Mathlib.Tactic.NormNum
 
 open OdlModel.Weighting OdlModel.C02 Finset
@@ -764,3 +765,59 @@ example : (Space.prod 2 (.const 1) .two (fun k => if k = 0 then .tens 3 (.const 
     else .prod 1 (.arr fun _ => 2) .two (fun _ => .tens 2 (.const 1) .one)) : Space ℝ).hasInner
     = false := by
   simp [Space.hasInner, Expo.isTwo, List.range, List.range.loop]
+
+/-! ### which routine computes the sums (extracted branch tables) -/
+
+/-- About the decision tree EXTRACTED from `_inner_default` (`Gen.innerTree`, regenerated from
+/repo on every run; today: real dtype → `np.tensordot` above `THRESHOLD_MEDIUM` entries else
+`np.dot`; complex → `np.vdot(x2, x1)`): whichever routine the code selects for whatever size /
+dtype class, the value is the documented sum `Σ x1ᵢ · conj(x2ᵢ)` (`innerDefault`, on which all
+inner-product theorems above rest), provided real dtypes hold real data.  Not by construction:
+the proof inspects the generated table — a source in which a non-conjugating routine becomes
+reachable for complex data, or `np.vdot` gets its operands in the other order, is translated
+(leaves `dot`/`tensordot`/`vdot12`) and this proof fails (see the `example` below); a changed
+threshold constant is translated and the theorem still holds.  Stream `dispatch/*` compares
+the selected routine and the value with the real code for sizes below / at / above the
+threshold. -/
+theorem C02.inner_dispatch_eq_innerDefault (f : Facts) (x y : Nat → 𝕜)
+    (hreal : f.isReal = true → ∀ i, starRingEnd 𝕜 (y i) = y i) :
+    innerDispatch (ops 𝕜).toIOps Gen.innerTree f x y =
+      innerDefault (ops 𝕜).toIOps f.size x y := by
+  have key : ∀ l, l = Gen.innerTree.select f →
+      (l = .vdot21 ∨ (f.isReal = true ∧ (l = .dot ∨ l = .tensordot))) := by
+    intro l hl
+    unfold Gen.innerTree at hl
+    simp only [Tree.select, Cond.eval, decide_eq_true_eq] at hl
+    split_ifs at hl <;> subst hl <;> simp_all
+  simp only [innerDispatch]
+  rcases key _ rfl with h | ⟨hr, h | h⟩ <;> rw [h] <;>
+    simp only [InnerLeaf.val, innerDefault, ops_conj, sumTo_eq_sum] <;>
+    refine Finset.sum_congr rfl (fun i _ => ?_)
+  · exact mul_comm _ _
+  · rw [hreal hr i]
+  · rw [hreal hr i]
+
+/-- Both routines of `_norm_default` (BLAS `nrm2` when `_blas_is_applicable`, else
+`np.linalg.norm`; tree `Gen.normTree` extracted from the source) compute the Euclidean norm
+`vecNorm .two` of the moduli on which `tNorm` is built — for every selection (by case analysis
+on the two leaf routines: both are specified as `sqrt(Σ aᵢ²)`; their different floating-point
+scaling is outside the model). -/
+theorem C02.norm_dispatch_eq_vecNorm (close1 : ℝ → Bool) (f : Facts) (a : Nat → ℝ) :
+    normDispatch Real.sqrt Gen.normTree f a = vecNorm (roots close1) .two f.size a := by
+  simp only [normDispatch]
+  cases Gen.normTree.select f <;> rfl
+
+/-- the hypotheses of `inner_dispatch_eq_innerDefault` on a concrete instance (real data, size
+above the extracted threshold), and: the statement is FALSE for a table that sends complex
+data to `np.dot` — the theorem depends on what was extracted -/
+example : (⟨true, Gen.thresholdMedium + 1, true⟩ : Facts).isReal = true →
+    ∀ i, starRingEnd ℝ ((fun i => (i : ℝ) + 1) i) = (fun i => (i : ℝ) + 1) i :=
+  fun _ _ => rfl
+
+example : ¬ (∀ (f : Facts) (x y : Nat → ℂ),
+    innerDispatch (ops ℂ).toIOps (.leaf .dot) f x y = innerDefault (ops ℂ).toIOps f.size x y) := by
+  intro h
+  have := h ⟨false, 1, true⟩ (fun _ => Complex.I) (fun _ => Complex.I)
+  simp [innerDispatch, Tree.select, InnerLeaf.val, innerDefault, sumTo] at this
+  have h2 := congrArg Complex.re this
+  norm_num at h2
